@@ -91,7 +91,13 @@ def gen(rng, tier, open_keys):
         tree = gen_tree(rng, rng.choice([1, 2, 3, 4, 5]), True, open_keys)
         c = rng.random()
         if c < 0.6:
-            cons = ["read", 40]
+            # read past the end of the stream: Close() reports the errors met *so far*, so a read that
+            # stops before a later failure would see fewer errors than the whole-stream model lists
+            try:
+                n_vals = len(spec(tree)[0])
+            except Exception:
+                n_vals = 40
+            cons = ["read", max(40, n_vals + 8)]
         elif c < 0.7:
             cons = ["count"]
         elif c < 0.8:
